@@ -49,8 +49,9 @@ Definition c_f64 : conv F64 := pn_f64.
 Definition c_flag : conv bool := fun v => omap (fun n => n =? 1) (pn_i32 v).
 Definition c_table (t : list (string * Z)) : conv Z := assoc_str t.
 Definition c_clamped (lo hi : F64) : conv F64 := fun v => omap (fun x => D.clamp x lo hi) (pn_f64 v).
-(* every element that is a number; the others are skipped *)
-Definition c_int_list : conv (list Z) := fun v => Some (filter_map parse_i32_raw (split_on comma v)).
+(* every element that is a number (as every number of the format: trimmed, within
+   +-(2^31-1)); the others are skipped *)
+Definition c_int_list : conv (list Z) := fun v => Some (filter_map c_i32 (split_on comma v)).
 
 Definition sample_bank_names : list (string * Z) :=
   [("0", 0); ("None", 0); ("1", 1); ("Normal", 1); ("2", 2); ("Soft", 2); ("3", 3); ("Drum", 3)]%string.
